@@ -8,6 +8,7 @@ import TssVerif.Core.Primes
 import TssVerif.Core.Blame
 import TssVerif.Core.BlameEc
 import TssVerif.Core.BlameRs
+import TssVerif.Core.BlameSg
 /-! Line-protocol ops for signing arithmetic. -/
 namespace TssVerif.OpsSign
 open TssVerif Wire OpsCrypto Sign
@@ -22,6 +23,11 @@ def run (op : String) (args : List String) : Option String :=
         | some w => "ok " ++ rNat w
         | none => "panic nil-mod-inverse")
     | _, _, _ => none
+  | "prepare_bigws", [ks, xs] =>
+    match pList pNat ks, pList pPoint xs with
+    | some ks, some xs =>
+      some (if !prepareGuard ks then "panic equal-ids" else (bigWs Secp256k1.curve ks xs).render fun ws => rList rPoint ws)
+    | _, _ => none
   | "ecdsa_verify", [pub, m, r, s] =>
     match pPoint pub, pNat m, pNat r, pNat s with
     | some pub, some m, some r, some s => some (rBool (ecdsaVerify Secp256k1.curve pub m r s))
@@ -122,6 +128,21 @@ def run (op : String) (args : List String) : Option String :=
         | .pass => "pass"
         | .fail why cs => "fail culprits=" ++ rList toString cs ++ " " ++ why.replace " " "-")
     | _, _ => none
+  | "ec_rs_round4_params", [own, ssid, noMod, msgs] =>
+    -- msgs: `idx/N/Ntilde/h1/h2/dln1 parts/dln2 parts/mod proof parts` separated by `;`
+    let pMsg (s : String) : Option BlameEc.RsR2Msg :=
+      match s.splitOn "/" with
+      | [idx, n, nt, h1, h2, d1, d2, mp] =>
+        match pDec idx, pNat n, pNat nt, pNat h1, pNat h2, pList pBytes d1, pList pBytes d2, pList pBytes mp with
+        | some idx, some n, some nt, some h1, some h2, some d1, some d2, some mp => some ⟨idx, n, nt, h1, h2, d1, d2, mp⟩
+        | _, _, _, _, _, _, _, _ => none
+      | _ => none
+    match pDec own, pBytes ssid, (msgs.splitOn ";").mapM pMsg with
+    | some own, some ssid, some msgs =>
+      some ((BlameEc.rsRound4Params Sha512.sha512_256 Zk.cur Ops16.curParse (noMod == "1") own ssid msgs).render fun
+        | .pass => "pass"
+        | .fail why cs => "fail culprits=" ++ rList toString cs ++ " " ++ why.replace " " "-")
+    | _, _, _ => none
   | "ec_kg_round3", [t, ownId, ssid, ownNt, ownH1, ownH2, noMod, noFac, peers] =>
     -- peers: `idx/commitment/N/decommitment/mod proof parts/share/fac proof parts` separated by `;`
     let pPeer (s : String) : Option BlameEc.R2Peer :=
@@ -151,6 +172,78 @@ def run (op : String) (args : List String) : Option String :=
         | .pass ack => "pass xi=" ++ rNat ack.xi
         | .fail why cs => "fail culprits=" ++ rList toString cs ++ " " ++ why.replace " " "-")
     | _, _, _, _ => none
+  | "rs_new_member_ec", [every, t, ownId, ownIdx, msgs] =>
+    -- the ECDSA new member: the same checks on secp256k1 (no cofactor: clearing multiplies by 1)
+    let pMsg (s : String) : Option BlameRs.OldMsg :=
+      match s.splitOn "/" with
+      | [idx, px, py, c, d, sh] =>
+        match pDec idx, pNat px, pNat py, pNat c, pList pNat d, pNat sh with
+        | some idx, some px, some py, some c, some d, some sh => some ⟨idx, (px, py), c, d, sh⟩
+        | _, _, _, _, _, _ => none
+      | _ => none
+    match pDec t, pNat ownId, pDec ownIdx, (msgs.splitOn ";").mapM pMsg with
+    | some t, some ownId, some ownIdx, some msgs =>
+      some ((BlameRs.newMember Secp256k1.curve Sha512.sha512_256 (every == "1") ⟨true⟩ 1 1 t ownId ownIdx msgs).render fun
+        | .pass ack => "pass xi=" ++ rNat ack.xi
+        | .fail why cs => "fail culprits=" ++ rList toString cs ++ " " ++ why.replace " " "-")
+    | _, _, _, _ => none
+  | "ec_sg_round2", [ownNt, ownH1, ownH2, peers] =>
+    -- peers: `idx/N/cA/range proof parts` separated by `;`
+    let pPeer (s : String) : Option BlameSg.R1Peer :=
+      match s.splitOn "/" with
+      | [idx, n, c, pf] =>
+        match pDec idx, pNat n, pNat c, pList pBytes pf with
+        | some idx, some n, some c, some pf => some ⟨idx, n, c, pf⟩
+        | _, _, _, _ => none
+      | _ => none
+    match pNat ownNt, pNat ownH1, pNat ownH2, (peers.splitOn ";").mapM pPeer with
+    | some nt, some h1, some h2, some peers =>
+      some ((BlameSg.round2 Secp256k1.curve Sha512.sha512_256 Zk.cur ⟨nt, h1, h2⟩ peers).render fun cs => "culprits=" ++ rList toString cs)
+    | _, _, _, _ => none
+  | "ec_sg_round3", [ssid, n, lam, phi, ownNt, ownH1, ownH2, peers] =>
+    -- peers: `idx/own cA for that peer/c1/Bob proof parts/c2/Bob proof with check parts/bigW` separated by `;`
+    let pPeer (s : String) : Option BlameSg.R2Peer :=
+      match s.splitOn "/" with
+      | [idx, ca, c1, pb, c2, pbw, w] =>
+        match pDec idx, pNat ca, pNat c1, pList pBytes pb, pNat c2, pList pBytes pbw, pPoint w with
+        | some idx, some ca, some c1, some pb, some c2, some pbw, some w => some ⟨idx, ca, c1, pb, c2, pbw, w⟩
+        | _, _, _, _, _, _, _ => none
+      | _ => none
+    match pBytes ssid, pNat n, pNat lam, pNat phi, pNat ownNt, pNat ownH1, pNat ownH2, (peers.splitOn ";").mapM pPeer with
+    | some ssid, some n, some lam, some phi, some nt, some h1, some h2, some peers =>
+      some ((BlameSg.round3 Secp256k1.curve Sha512.sha512_256 Zk.cur ssid ⟨n, lam, phi, 0, 0⟩ ⟨nt, h1, h2⟩ peers).render fun r =>
+        "culprits=" ++ rList toString r.culprits ++ " shares=" ++ rList (fun (a, u) => rNat a ++ ":" ++ rNat u) r.shares)
+    | _, _, _, _, _, _, _, _ => none
+  | "ec_sg_round5", [ssid, ownGamma, peers] =>
+    -- peers: `idx/commitment/de-commitment/alpha/t` separated by `;`
+    let pPeer (s : String) : Option BlameSg.R4Peer :=
+      match s.splitOn "/" with
+      | [idx, c, d, al, t] =>
+        match pDec idx, pNat c, pList pNat d, pPoint al, pNat t with
+        | some idx, some c, some d, some al, some t => some ⟨idx, c, d, al, t⟩
+        | _, _, _, _, _ => none
+      | _ => none
+    match pBytes ssid, pPoint ownGamma, (peers.splitOn ";").mapM pPeer with
+    | some ssid, some g, some peers =>
+      some ((BlameSg.round5 Secp256k1.curve Sha512.sha512_256 Zk.cur ssid g peers).render fun
+        | .pass r => "pass sum=" ++ rPoint r
+        | .fail why c => "fail culprits=" ++ toString c ++ " " ++ why.replace " " "-")
+    | _, _, _ => none
+  | "ec_sg_round7", [ssid, bigR, peers] =>
+    -- peers: `idx/commitment/de-commitment/alphaA/tA/alphaV/tV/uV` separated by `;`
+    let pPeer (s : String) : Option BlameSg.R6Peer :=
+      match s.splitOn "/" with
+      | [idx, c, d, aa, ta, av, tv, uv] =>
+        match pDec idx, pNat c, pList pNat d, pPoint aa, pNat ta, pPoint av, pNat tv, pNat uv with
+        | some idx, some c, some d, some aa, some ta, some av, some tv, some uv => some ⟨idx, c, d, aa, ta, av, tv, uv⟩
+        | _, _, _, _, _, _, _, _ => none
+      | _ => none
+    match pBytes ssid, pPoint bigR, (peers.splitOn ";").mapM pPeer with
+    | some ssid, some bigR, some peers =>
+      some ((BlameSg.round7 Secp256k1.curve Sha512.sha512_256 Zk.cur ssid bigR peers).render fun
+        | .pass l => "pass points=" ++ rList (fun (v, a) => rPoint v ++ "+" ++ rPoint a) l
+        | .fail why c => "fail culprits=" ++ toString c ++ " " ++ why.replace " " "-")
+    | _, _, _ => none
   | "engine2_trace", [proto, role, nOld, nNew, self, evs] =>
     match Engine2.findProto proto, pDec nOld, pDec nNew, pDec self with
     | some p, some nOld, some nNew, some self =>
